@@ -43,7 +43,7 @@ pub open spec fn lit(s: &str) -> Ev { Ev::Lit(s@) }
 pub open spec fn emp() -> Seq<Ev> { Seq::<Ev>::empty() }
 // R-panic (trusted): panic!(..) / unimplemented!(..) never return; reaching them is excluded by the function's precondition
 #[verifier::external_body]
-fn vpanic() requires false { unimplemented!() }
+fn vpanic() ensures false { unimplemented!() }
 // TRUSTED (std): a Vec's length is a usize
 #[verifier::external_body]
 pub proof fn axiom_vec_len_fits<T>(v: &Vec<T>) ensures v@.len() <= usize::MAX {}
